@@ -463,6 +463,14 @@ def resolve_strategy_record_conflicts(base_path, base, decisions):
     #conflict_decisions = [d for d in decisions if d.conflict]
     decisions.decisions = [d for d in decisions if not d.conflict]
 
+    if "nbdime-conflicts" in base:
+        # The record of a previous merge is replaced below, so changes
+        # that one side made to that old record are superseded
+        def on_old_record(d):
+            entries = list(d.local_diff or ()) + list(d.remote_diff or ())
+            return entries and all(e.key == "nbdime-conflicts" for e in entries)
+        decisions.decisions = [d for d in decisions if not on_old_record(d)]
+
     # Record remaining conflicts in field nbdime-conflicts
     conflicts_dict = {
         "local_diff": local_conflict_diffs,
